@@ -33,7 +33,7 @@ def _build_dump(workdir):
 RATIOS = [(1, 2), (2, 1), (1, 3), (3, 1), (2, 3), (3, 2), (1, 4), (4, 1), (3, 4), (4, 3), (1, 5), (5, 1), (1, 8), (8, 1), (1, 16), (16, 1), (1, 31), (1, 60), (1, 64), (1, 125), (100, 1),
           (44100, 48000), (48000, 44100), (44100, 96000), (96000, 44100), (44100, 192000), (192000, 44100), (48000, 88200), (88200, 48000), (32000, 44100), (96000, 50000),
           (40000, 48000), (44100, 65537), (65537, 44100), (44100, 48001), (48000, 23999), (96000, 55001), (44100, 22051), (8000, 44101), (16000, 44101), (1, 1),
-          (1000, 999), (999, 1000), (10000, 1), (1, 1000), (7, 5), (5, 7), (11, 1), (1, 11), (512, 1), (1024, 1), (2048, 1), (4096, 1), (100000, 1), (1, 4096)]
+          (1000, 999), (999, 1000), (10000, 1), (1, 1000), (7, 5), (5, 7), (11, 1), (1, 11), (512, 1), (1024, 1), (2048, 1), (4096, 1), (100000, 1), (1, 4096), (44100, 48223), (48223, 44100), (44100, 48002), (96000, 44103), (22051, 96000)]
 
 
 def cfg_lines(tier):
@@ -44,6 +44,7 @@ def cfg_lines(tier):
             for qflags in (0, 16):
                 lines.append('%d %d %d %d -1 -1 -1 0 10 17 1' % (a, b, rc, qflags))
         lines.append('%d %d 4 8 -1 -1 -1 0 10 17 1' % (a, b))        # hi-prec clock
+        lines.append('%d %d 6 8 -1 -1 -1 0 10 17 1' % (a, b))        # hi-prec clock, VHQ
         lines.append('%d %d 4 0 -1 -1 -1 0 8 8 1' % (a, b))          # small DFT sizes
         lines.append('%d %d 6 0 -1 -1 -1 2 10 17 0.5' % (a, b))      # coefficient interpolation LOW, gain 0.5
         lines.append('%d %d 4 0 -1 -1 -1 3 15 20 1' % (a, b))        # interpolation HIGH, large DFT
@@ -131,6 +132,35 @@ def check_plan(d, bad):
                 if lin:
                     req(at == 0 and (s['num_taps'] - 1) % L == 0, 'frequency-domain up-sampling is block aligned (at == 0, overlap multiple of L)')
             req(s['pre'] == 0 and s['pre_post'] == 0, 'DFT stage keeps no sample context')
+    # rate identity (C04: no drift): the product of the per-stage input/output ratios IS the configured io_ratio
+    prod = Fraction(1); tol = Fraction(1, 1 << 49); ok = True
+    for s in st[:ns]:
+        k = kind(s)
+        if k == 'half':
+            prod *= 2
+        elif k == 'dft':
+            M = s['step'] >> 32
+            M = M if M > 0 else -2 * M
+            if M <= 0 or s['L'] <= 0:
+                ok = False; break
+            prod *= Fraction(M, s['L'])
+        elif k == 'cubic':
+            prod *= Fraction(s['step'], 1 << 32); tol = max(tol, Fraction(1, 2 * s['step']) + Fraction(1, 1 << 49))     # step rounded to the nearest 2^-32
+        elif k == 'poly':
+            L = max(s['L'], 1)
+            if s['hi_prec']:
+                prod *= Fraction((s['step'] << 64) + s['step_ls'], (1 << 96) * L); tol = max(tol, Fraction(1, 1 << 45))
+            else:
+                prod *= Fraction(s['step'], (1 << 32) * L)
+                if L == 1:      # 32.32 clock: the step is rounded to 2^-32 of a stage-input period
+                    tol = max(tol, Fraction(1, 2 * s['step']) + Fraction(1, 1 << 49))
+        else:
+            ok = False; break
+    if ok and ns:
+        want = Fraction(d['io_ratio'])
+        if abs(prod - want) > tol * want:
+            bad.append('%s [%s]: rate identity: the stages convert by %.15g but io_ratio is %.15g (relative error %.3g > %.3g): timing drifts (C04)' % (
+                cfg, d['engine'], float(prod), float(want), float(abs(prod - want) / want), float(tol)))
     return n
 
 
